@@ -18,7 +18,11 @@ TRUSTED_BASE = [
     "the Python harness: generator of file triples, table dump, the oracle c10Holds (exact Fraction arithmetic on the source rows)",
     "csv module, SQLite engine (primary-key order of staging tables, joins), numpy.interp's bracketing formula",
     "hand-written model lean/SpowtdModel/Model/Load.lean tied to load.py through the correspondence check only",
+    "translator tools/gen_schema.py: spowtd/schema.sql as parsed by SQLite itself (PRAGMA table_info / index_list / "
+    "foreign_key_list; CHECK clauses and view bodies cut from the stored CREATE text) -> lean/SchemaTie/Generated.lean; "
+    "the declarations the proofs assume are re-checked by `rfl` on every run (SchemaTie/Load.lean)",
 ]
+SCHEMA_TIE = ('Load',)
 ASSUMPTIONS = [
     "input values are finite doubles written with repr (round-trip exact); timestamps at whole seconds",
     "the water-level span holds at least two rainfall timestamps (otherwise load refuses)",
